@@ -19,6 +19,7 @@ import (
 	"context"
 	"fmt"
 	"io"
+	"math"
 	"net"
 	"time"
 
@@ -243,7 +244,7 @@ func (u *PacketUnderlay) RunEventLoop(ctx context.Context) error {
 								protocol: uint8(closeSessionRequest),
 							},
 							sessionID:  das.sessionID,
-							seq:        das.unAckSeq,
+							seq:        math.MaxUint32, // not a clean close: the session state is unknown
 							statusCode: 0,
 							payloadLen: 0,
 						},
